@@ -69,7 +69,10 @@ class Frame:
         self.line = line
         self.keys = []  # literals seen at key positions (maps) / first position (arrays)
         self.vals = []  # description of the value written after each key (maps)
+        self.items = []  # arrays: description (field path / #literal / container@line) of each single item, in order; None = unknown
         self.tag = None
+        self.depth = 0
+        self.sid = 0
 
 
 class Oracle:
@@ -126,6 +129,7 @@ class Interp:
         self.containers = []  # finished containers: dict(kind, declared, keys, tag, line)
         self.env = {}
         self.pending_tag = None
+        self.tags = []  # every tag value written (int or '?')
         self.len_deps = []  # for additivity: list of sets of groups per summand
         self.notes = []
         self.zero_roots = set()  # objects known empty in this abstract state: their size symbols are 0
@@ -143,6 +147,11 @@ class Interp:
                 top.vals.append(desc)
         elif top.kind == "array" and c == 0 and lconst(n) == 1:
             top.keys.append(key)
+        if top.kind in ("array", "top"):
+            if lconst(n) == 1:
+                top.items.append(desc if desc is not None else ("#%s" % key if key is not None else None))
+            else:
+                top.items.append("*" + lstr(n))
         top.count = ladd(top.count, n)
         self.pending_tag = None
         self.settle(line, sid)
@@ -171,11 +180,13 @@ class Interp:
 
     def close(self, line, sid=0):
         top = self.stacks[sid].pop()
-        self.containers.append({"kind": top.kind, "declared": top.declared if top.declared == "indef" else lstr(top.declared), "keys": top.keys, "vals": top.vals, "tag": top.tag, "line": top.line})
+        self.containers.append({"kind": top.kind, "declared": top.declared if top.declared == "indef" else lstr(top.declared), "keys": top.keys, "vals": top.vals, "items": top.items, "tag": top.tag, "line": top.line, "depth": top.depth, "sid": top.sid})
         self.item(lin(1), None, line, sid, desc="container@%d" % top.line)
 
     def open(self, kind, declared, line, sid=0):
         f = Frame(kind, declared, line)
+        f.depth = len(self.stacks[sid])
+        f.sid = sid
         f.tag = self.pending_tag
         self.pending_tag = None
         self.stacks[sid].append(f)
@@ -894,6 +905,7 @@ class Interp:
         elif name == "write_tag":
             a = self.ev(n[5][0])
             self.pending_tag = lconst(a[1]) if a[0] == "int" else "?"
+            self.tags.append(self.pending_tag if self.pending_tag is not None else "?")
         elif name in ("write_array_sz", "write_map_sz", "write_unsigned_integer_sz", "write_negative_integer_sz", "write_bytes_sz", "write_text_sz", "write_tag_sz"):
             self.problems.append(("W-min", "explicit-size writer %s at line %d (non-canonical encodings possible)" % (name, line), line))
             if name in ("write_array_sz", "write_map_sz"):
@@ -933,7 +945,12 @@ class Interp:
             self.item(lin(1), key, line, sid, desc=d)
             return ("ser", sid)
         if short == "serialize_nullable":
-            self.item(lin(1), None, line, sid)
+            d = None
+            for a in args:
+                if a and a[0] in ("path", "somepath"):
+                    d = canon(a[1])
+                    break
+            self.item(lin(1), None, line, sid, desc=d)
             return ("ser", sid)
         if callee in SUMMARY_OVERRIDE or self.F.key(callee) in SUMMARY_OVERRIDE:
             self.item(lin(SUMMARY_OVERRIDE.get(callee, SUMMARY_OVERRIDE.get(self.F.key(callee)))[0]), None, line, sid)
@@ -955,6 +972,7 @@ class Interp:
         sub.pending_tag = self.pending_tag
         sub.len_deps = self.len_deps
         sub.notes = self.notes
+        sub.tags = self.tags
         sub.zero_roots = self.zero_roots
         params = [H.pat_bindings(p) for p in h["params"]]
         for names, v in zip(params, args):
@@ -989,12 +1007,14 @@ def run_once(F, fid, assignment, base, summaries):
                 it.problems.append(("W-len", "indefinite %s opened at line %d is never closed with Break" % (top.kind, top.line), top.line))
             else:
                 it.problems.append(("W-len", "%s opened at line %d declares %s %s but %s items are written" % (top.kind, top.line, lstr(top.declared), "entries" if top.kind == "map" else "items", lstr(top.count) if top.kind != "map" else lstr(top.count) + " (2 per entry)"), top.line))
-            it.containers.append({"kind": top.kind, "declared": top.declared if top.declared == "indef" else lstr(top.declared), "keys": top.keys, "tag": top.tag, "line": top.line})
+            it.containers.append({"kind": top.kind, "declared": top.declared if top.declared == "indef" else lstr(top.declared), "keys": top.keys, "vals": top.vals, "items": top.items, "tag": top.tag, "line": top.line, "depth": top.depth, "sid": top.sid})
             stack[-1].count = ladd(stack[-1].count, lin(1))
     # local serializers must hold exactly one complete item when they are finalised
     for sid, stack in it.stacks.items():
         if sid != 0 and not leq(it.zsub(stack[0].count), lin(1)):
             it.problems.append(("W-one", "local serializer created at line %d holds %s top-level items" % (stack[0].line, lstr(stack[0].count)), stack[0].line))
+    t0 = it.stacks[0][0]
+    it.containers.append({"kind": "top", "declared": lstr(t0.count), "keys": [], "vals": [], "items": t0.items, "tag": None, "line": 0, "depth": 0, "sid": 0})
     return it.stacks[0][0].count, o, it
 
 
@@ -1003,7 +1023,7 @@ def analyse(F, fid, summaries, max_runs=20000):
     discovered = {}
     runs = [({}, 0), ({}, 1)]
     done = set()
-    res = {"status": "ok", "runs": 0, "top": set(), "problems": {}, "containers": [], "atoms": {}, "notes": set()}
+    res = {"status": "ok", "runs": 0, "top": set(), "problems": {}, "containers": [], "atoms": {}, "notes": set(), "tags": set()}
     groups_done = set()
     sel_done = False
     while runs:
@@ -1037,9 +1057,13 @@ def analyse(F, fid, summaries, max_runs=20000):
                 w = sum(1 for v in state.values() if v is True)
                 if k not in res["problems"] or w < res["problems"][k][2]:
                     res["problems"][k] = (msg, state, w)
+            vsel = {a: v for a, v in state.items() if a.startswith("variant:")}
             for c in it.containers:
+                c = dict(c, variants=vsel)
                 if c not in res["containers"]:
                     res["containers"].append(c)
+            for tg in it.tags:
+                res["tags"].add(tg)
             res["notes"] |= set(it.notes)
         # schedule: each group exhaustively x baselines x selector product
         byg = defaultdict(list)
